@@ -139,7 +139,7 @@ Lemma empty_exists_refuted :
   pb_model false cfg_fixed h_empty = None /\ pb_model true cfg_fixed h_empty = Some 1 /\
   map (fun i => nth i (snd (run E0 cfg_fixed st0 h_empty)) ONone) [1; 4]%nat =
   [OS (SGet true (Some [])); OS (SGet false None)].
-Proof. repeat split; vm_compute; reflexivity. Qed.
+Proof. split; [| split]; vm_compute; reflexivity. Qed.
 
 (** ** non-vacuity: a history with creations, overwrites, deletions, nested snapshots, a code
     change, eviction, reopen and rollbacks, inside the theorem's domain, on which the repaired
@@ -168,4 +168,4 @@ Lemma reexec_same_roots :
   let outs := snd (run E0 cfg_fixed st0 h_reexec) in
   nth 5 outs ONone = nth 13 outs ONone /\ nth 8 outs ONone = nth 16 outs ONone /\
   roots_check (flush_recs cfg_fixed [h_reexec]) = 0.
-Proof. repeat split; vm_compute; reflexivity. Qed.
+Proof. cbv zeta. split; [| split]; vm_compute; reflexivity. Qed.
